@@ -302,7 +302,14 @@ fn cap_pending(h: Vec<Ev>, max: usize) -> Vec<Ev> {
 }
 
 fn drain_bound(g: &GenCfg) -> u64 {
-    let sum: u64 = g.numbers.iter().map(|n| (*n).min(70_000)).sum();
+    let mut sum: u64 = g.numbers.iter().map(|n| (*n).min(70_000)).sum();
+    // `sldr` without a sequence-timeout in defcfg uses the default of 1000 ms, which is not among
+    // the written numbers; every on-idle / hold-for-duration action can start such a sequence once
+    // more after the previous one has timed out
+    if g.text.contains("sldr") && !g.text.contains("sequence-timeout") {
+        let restarts = g.text.matches("on-idle").count() + g.text.matches("hold-for-duration").count();
+        sum += 1000 * (1 + restarts as u64);
+    }
     4 * sum + 40 * (g.rapid_event_delay + 2) + 2000
 }
 
